@@ -34,8 +34,8 @@ ASSUMPTIONS = [
 
 def budget(tier):
     if tier == 'thorough':
-        return {'seeds': 12000, 'wall': 840, 'chunk': 50}
-    return {'seeds': 6000, 'wall': 150, 'chunk': 25}
+        return {'seeds': 90000, 'wall': 900, 'chunk': 100}
+    return {'seeds': 6000, 'wall': 200, 'chunk': 50}
 
 
 REG_TYPES = ['Obj', 'SimObj', 'MyDict', 'SimDict', 'ROProp', 'SimList']
